@@ -230,3 +230,46 @@ def whole_rows(ctx: Ctx) -> None:
         good = bool(orders) and bool(used) and arg0_self
         (ctx.ok if good else ctx.bad)(R, f, f.node, f'order = sort_index_for_order(self, ...) feeds {consumer}' if good else
                                       f'{cname}.sort does not extract with the permutation computed from its own labels', key=f'{cname}.sort')
+
+
+def order_from_keys(ctx: Ctx) -> None:
+    R = 'I.order-from-sort-keys'
+    ctx.rule(R, 'in every function that computes an ordering permutation, each definition of the permutation is a sort primitive '
+             '(np.argsort / np.lexsort) applied to values data-dependent on the key container (the key function\'s result when one is '
+             'given), or the reversal of the permutation itself: no path returns an order that ignores the sort keys', floor=3)
+    prog = ctx.prog
+    for qual, seeds in (('container_util.sort_index_for_order', ('cfs',)), ('series.Series.sort_values', ('cfs', 'cfs_values')),
+                        ('frame.Frame.sort_values', ('cfs',))):
+        f = prog.func(qual)
+        tainted = set(seeds)
+        changed = True
+        while changed:
+            changed = False
+            for a in walk_local(f.node):
+                if isinstance(a, ast.Assign):
+                    names = [t.id for t in a.targets if isinstance(t, ast.Name)]
+                    if any(isinstance(x, ast.Name) and x.id in tainted for x in ast.walk(a.value)):
+                        for nme in names:
+                            if nme not in tainted and nme != 'order':
+                                tainted.add(nme)
+                                changed = True
+        defs = [a for a in walk_local(f.node) if isinstance(a, ast.Assign) and any(isinstance(t, ast.Name) and t.id == 'order' for t in a.targets)]
+        ctx.require(len(defs) >= 2, f'{qual} defines its permutation')
+        # the key container itself: key(<own container>) when a key is given, else the container
+        for a in defs:
+            v = a.value
+            key = f'{f.name}:order={norm(v)[:50]}'
+            if isinstance(v, ast.Call) and call_name(v) in ('np.argsort', 'np.lexsort') and v.args:
+                dep = any(isinstance(x, ast.Name) and x.id in tainted for x in ast.walk(v.args[0]))
+                (ctx.ok if dep else ctx.bad)(R, f, a, f'{call_name(v)} over `{norm(v.args[0])[:40]}`, which derives from the key container' if dep else
+                                             f'{call_name(v)} sorts `{norm(v.args[0])[:40]}`, which does not derive from the key container', key=key)
+            elif all(not isinstance(x, ast.Name) or x.id in ('order', 'np') for x in ast.walk(v)) and 'order' in norm(v):
+                ctx.ok(R, f, a, 'reversal of the permutation', key=key)
+            else:
+                ctx.bad(R, f, a, f'`order = {norm(v)[:60]}` is not the result of sorting the key values: on this path the result ignores the sort keys '
+                        '(e.g. a key function\'s output is computed and then dropped)', key=key)
+        # cfs comes from key(container) under `if key:`
+        cdefs = [a for a in walk_local(f.node) if isinstance(a, ast.Assign) and any(isinstance(t, ast.Name) and t.id == 'cfs' for t in a.targets)]
+        keyed = [a for a in cdefs if isinstance(a.value, ast.Call) and call_name(a.value) == 'key']
+        (ctx.ok if keyed else ctx.bad)(R, f, cdefs[0] if cdefs else f.node, 'the key function\'s result is the container that is sorted' if keyed else
+                                       'the key function is never applied', key=f'{f.name}:cfs=key(...)')
